@@ -3,10 +3,10 @@
 (* Conformance of the real PLSSDesc with the marker-walk model             *)
 (* (PlssWalk.tla).  One record per TLC-emitted terminal state:             *)
 (*  {"id", "model": {lay, fell, comps: [{tr, sec, toksec, first, marks}],  *)
-(*                   unused: [[marker]], eflags: [kind]},                  *)
+(*                   unused: [[marker]], eflags: [kind], wflags: [kind]},  *)
 (*   "seccount": [per token index: how many section numbers it names],     *)
 (*   "obs": {exc, lay, tracts: [{tr, sec, marks}], unused: [[marker]],     *)
-(*           eflags: [kind]}}                                              *)
+(*           eflags: [kind], wflags: [kind of finder / sec_within warning]}}*)
 (* The comparison is drift (R4): which tract carries which text, which     *)
 (* Twp/Rge and section, which text is flagged unused, which error flags.   *)
 (***************************************************************************)
@@ -34,6 +34,7 @@ Differs(r) ==
   ELSE IF r.obs.tracts # Expand(r, 1) THEN "tract_contents"
   ELSE IF r.obs.unused # r.model.unused THEN "unused_text_flags"
   ELSE IF ~SameBag(r.obs.eflags, r.model.eflags) THEN "error_flag_kinds"
+  ELSE IF ~SameBag(r.obs.wflags, r.model.wflags) THEN "warning_flag_kinds"
   ELSE "same"
 Drift == l > 1 => (Differs(Rec) = "same" \/ PrintT(<<"INFO", "drift", Rec.id, Differs(Rec)>>))
 AllConsumed ==
